@@ -32,6 +32,7 @@ type FilterSpec struct {
 	DiscoveryDoc   string   `json:"discoveryDoc"` // variant of the discovery document: "" | "pkcePlainOnly" | "noEndSession"
 	NoLogoutRedirect bool   `json:"noLogoutRedirect"` // logout configured without redirect_uri (taken from discovery)
 	inheritedLogoutPath string
+	SharedCallback   bool   `json:"sharedCallback"` // all such filters use one callback URI (https://app.test/shared/callback)
 	InheritLogout    bool   `json:"inheritLogout"`    // override-based filter without a logout section of its own: the default's applies
 }
 
